@@ -3,7 +3,7 @@ from fractions import Fraction
 import numpy as np
 from ..runner import Acc, HarnessError
 from ..refmodel import Fmt
-from ..common import Fxp, fx, codes, flags, fmt_of, reset_class_state, build
+from ..common import Fxp, fx, codes, flags, fmt_of, reset_class_state, build, AGED
 
 ID = 'C09'
 RULE = ('cases = (format pair, op in {/, //, %}, method raw/repr, rounding of the first operand, code pair with divisor != 0), executed with '
@@ -130,10 +130,12 @@ def judge(acc, fxm, fym, xs, ys, op, method, rnd, shape_mode, part, by='raw'):
     return got
 
 
-def judge_all(acc, fxm, fym, xs, ys, part, scalars=False):
+def judge_all(acc, fxm, fym, xs, ys, part, scalars=False, aged=()):
     for op in OPS:
         for method in ('raw', 'repr'):
             judge(acc, fxm, fym, xs, ys, op, method, 'floor', 'outer', part, 'value')       # operands with an integer value type
+            for how in aged:                                                                  # operands reached through a history
+                judge(acc, fxm, fym, xs, ys, op, method, 'around', 'outer', part, how)
     for rnd in ROUNDS:
         res = {}
         for op in OPS:
@@ -295,7 +297,12 @@ def shards(tier, seed):
     nws = [6, 8, 13, 16, 21, 26] if tier == 'quick' else list(range(6, 27))
     for nw in nws:
         out.append({'part': 'B', 'nw': nw, 'nws': nws})
+    for nw in FAR_WORDS:
+        out.append({'part': 'F', 'nw': nw})
     return out
+
+
+FAR_WORDS = (12, 30, 40, 52)
 
 
 def bfmts(nws):
@@ -311,10 +318,19 @@ def run_shard(sh):
         xs = list(range(fxm.lo, fxm.hi + 1))
         for fym in fs:
             ys = list(range(fym.lo, fym.hi + 1))
-            judge_all(acc, fxm, fym, xs, ys, 'S', scalars=(fxm.n_word <= sh['ks'] and fym.n_word <= sh['ks']))
+            hows = AGED if max(fxm.n_word, fym.n_word) <= 2 else (AGED[(sh['i'] + fs.index(fym)) % len(AGED)],)
+            judge_all(acc, fxm, fym, xs, ys, 'S', scalars=(fxm.n_word <= sh['ks'] and fym.n_word <= sh['ks']), aged=hows)
             judge_inplace(acc, fxm, fym, 'S')
             if fxm.n_word <= 3 and fym.n_word <= 3:
                 judge_out(acc, fxm, fym, xs, ys, 'S')
+    elif sh['part'] == 'F':
+        # wide operands whose binary points are far apart (the divisor or dividend is shifted by many bits before dividing)
+        ffs = [Fmt(s, nw, nf) for s in (True, False) for nw in FAR_WORDS for nf in sorted({0, 2, nw // 2, nw - 4, nw})]
+        for fxm in [f for f in ffs if f.n_word == sh['nw']]:
+            xs = sorted({fxm.lo, fxm.lo + 1, 1, fxm.hi // 3, fxm.hi - 1, fxm.hi} | ({-1} if fxm.signed else set()))
+            for fym in ffs:
+                ys = sorted(c for c in {1, 3, -1, -3, fym.lo, fym.hi, fym.hi // 2 + 1, (fym.hi // 2 + 1) // 2 * 3} if fym.lo <= c <= fym.hi)
+                judge_all(acc, fxm, fym, xs, ys, 'F')
     else:
         for fxm in [f for f in bfmts(sh['nws']) if f.n_word == sh['nw']]:
             xs = sorted({fxm.lo, fxm.lo + 1, 1, fxm.hi - 1, fxm.hi} | ({-1} if fxm.signed else set()))
